@@ -25,7 +25,12 @@ META = {
             "extraction of the current source - every call of a sequence is the call alone; refuted for a kept "
             "loader), cycles through output files have their own theorem, and after a fatal crash a probe "
             "process tells whether the stack ran away in the loader or in the build walk after the loader had "
-            "accepted the graph (impl:cycle-not-reported).",
+            "accepted the graph (impl:cycle-not-reported); the arguments of Build are the caller's: the harness "
+            "hands the very same []string to every call asking for the same targets (Builders at the root and "
+            "inside package directories, a nested package pkg/pkg with rules of equal base names) and compares it "
+            "after each call (impl:arguments-modified), the model states that the result is a function of the "
+            "values passed (Caco/LoadArgs.v; refuted for names resolved in place), and the translator extracts "
+            "every write to a slice or map parameter (gen_params_not_written).",
     "note": "Trusted: Coq kernel + vm_compute; harness/cmd/c11 + checks/c11.py comparison and error-message "
             "projection; name resolution (makeRelPath/makePath) is C12's subject and enters as resolved names; "
             "JSONx parsing, os.Lstat and the file system are modelled, not verified; only file_set and bundle "
@@ -363,6 +368,18 @@ def expand_seq(cases):
     return out
 
 
+def args_oracle(c):
+    """Arguments passed by reference (the []string handed to Build, the *Config handed to NewBuilder) are
+    the caller's: unchanged after the call.  Returns (key, text) or None."""
+    mods = c["obs"].get("arg_mods") or []
+    if not mods:
+        return None
+    m = mods[0]
+    return ("impl:arguments-modified",
+            "call %d changed its argument %s: %r before, %r after (the same slice handed to a later call then "
+            "means other targets)" % (m["call"], m["what"], m["before"], m["after"]))
+
+
 def is_trivial(c):
     return not any(d["k"] != "sub" for f in c["files"] for d in f["decls"]) or not c["targets"]
 
@@ -436,6 +453,12 @@ def run(ck):
             ck.violation(key, why, {"case": c, "observed": c["obs"],
                                     "expected": "terminates; error iff unnamed/duplicate/cycle/dangling; "
                                                 "else exactly the reachable rules, once, dependencies first"})
+        bad = args_oracle(c) if not c.get("call") else None
+        if bad:
+            key, why = bad
+            ck.violation(key, why, {"case": c, "observed": c["obs"],
+                                    "expected": "the target slice and the Config handed to the Builder are unchanged "
+                                                "after every call"})
         bad = again_oracle(c)
         if bad:
             key, why = bad
